@@ -1,4 +1,5 @@
 import TaffyVerif.Drv.C02
+import TaffyVerif.Drv.C10
 import TaffyVerif.Drv.C08
 import TaffyVerif.Drv.C03
 import TaffyVerif.Drv.C14
@@ -8,6 +9,7 @@ import TaffyVerif.Drv.C15
 
 def handlers : List (String × Handler) := [
   ("C02", DrvC02.handler),
+  ("C10", DrvC10.handler),
   ("C08", DrvC08.handler),
   ("C03", DrvC03.handler),
   ("C14", DrvC14.handler),
